@@ -196,6 +196,53 @@ def run(chk: Check) -> None:
         chk.ob("R10.2", "Module.__init__:creates(%s)" % idx, per_instance and idx not in mod.class_assigns,
                init.loc(), "%s must be a per-module instance attribute created in __init__" % idx, 1)
 
+    # the two tables hold symbols only: whatever changes one of them does so for a node that was
+    # just tested to be a Symbol (a clean-up written for another kind of node must not reach them)
+    MUT = ("add", "discard", "remove", "pop", "popitem", "clear", "update", "setdefault", "__setitem__", "__delitem__")
+    n_mut = 0
+    for g in mod.methods.values():
+        if g.name == "__init__":
+            continue
+        cfgm = None
+        for x in walk_no_nested(g.node):
+            hit = None
+            if isinstance(x, ast.Call) and isinstance(x.func, ast.Attribute) and x.func.attr in MUT:
+                base = x.func.value
+                while isinstance(base, (ast.Subscript, ast.Call)):
+                    base = base.value if isinstance(base, ast.Subscript) else base.func
+                    if isinstance(base, ast.Attribute) and base.attr in ("get", "setdefault"):
+                        base = base.value
+                if isinstance(base, ast.Attribute) and base.attr in INDEXES:
+                    hit = x
+            elif isinstance(x, (ast.Assign, ast.Delete, ast.AugAssign)):
+                tg = x.targets if not isinstance(x, ast.AugAssign) else [x.target]
+                for t in tg:
+                    b2 = t
+                    while isinstance(b2, ast.Subscript):
+                        b2 = b2.value
+                    if isinstance(b2, ast.Attribute) and b2.attr in INDEXES and t is not b2:
+                        hit = x
+            if hit is None:
+                continue
+            n_mut += 1
+            chk.saw(g)
+            if cfgm is None:
+                cfgm = CFG(g.node)
+            try:
+                facts_ = cfgm.facts_at(cfgm.node_of(hit))
+            except AnalysisError:
+                continue
+            is_sym = any(isinstance(t_, ast.Call) and attr_path(t_.func) == ("isinstance",) and v_
+                         and "Symbol" in unparse(t_.args[1]) for t_, v_ in facts_ if not isinstance(t_, ast.stmt))
+            other_kind = [unparse(t_.args[1]) for t_, v_ in facts_ if not isinstance(t_, ast.stmt)
+                          and isinstance(t_, ast.Call) and attr_path(t_.func) == ("isinstance",) and v_
+                          and "Symbol" not in unparse(t_.args[1])]
+            chk.ob("R10.2", "%s:index-touched-for-symbols-only(%s)" % (g.qualname, unparse(hit)[:30].replace(" ", "")),
+                   is_sym and not other_kind, g.loc(hit),
+                   "%s changes a symbol index (%s) %s: the tables are keyed for symbols only"
+                   % (g.qualname, unparse(hit)[:50],
+                      "for a node known to be a %s" % other_kind[0] if other_kind else "without having tested that the node is a Symbol"), 2)
+    chk.floor("R10.2", "statements changing a symbol index", n_mut, 3)
     # lookups by name / referent write nothing (a memo goes stale when a block moves)
     from .c12 import _purity as _lookup_purity
     from ..types import TypeEnv
